@@ -11,14 +11,17 @@ READING: "all stones of one colour are connected" is read as vacuously true for 
 
 The module posts more than the rules: two "auxiliary" constraints (no 2x2 block coloured like a checkerboard) and
 "the colour changes at most twice around the outer ring of the board".  Both follow from rule 1 only by a planarity
-(Jordan curve) argument, which is not formalised; this differential over ALL colourings of small boards is the
-evidence for them.
+(Jordan curve) argument; it is formalised in lean/CspuzModel/Proofs/C11YinyangCyc.lean (colour-boundary lattice graph:
+a cycle in it is a closed cochain, hence by connectivity of both colours the whole boundary, so every lattice point and
+the outside vertex have at most two boundary segments), for all boards including one-row / one-column ones.
 """
 import itertools
 
 NAME = "yinyang"
-STATUS = "partial: planar argument (model + differential only)"
-THEOREMS = []
+STATUS = "theorem"
+THEOREMS = ["Cspuz.C11.Yinyang.program_iff_rules", "Cspuz.C11.Yinyang.total",
+            "Cspuz.C11.Yinyang.auxiliary_constraints_implied"]
+LEAN_FILE = "C11_Yinyang"
 LEAN_CMD = "puz_yinyang"
 
 _SHAPES = [(1, 1), (1, 2), (2, 1), (1, 3), (3, 1), (1, 5), (5, 1), (2, 2), (2, 3), (3, 2), (2, 4), (4, 2), (3, 3), (2, 5), (5, 2), (3, 4), (4, 3),
